@@ -140,7 +140,16 @@ func (e *orderEngine) step(ws []string) string {
 		e.v = v
 		ents := e.v.Redeliver()
 		minted := e.v.Ready(ents, false)
-		return fmt.Sprintf("redelivered=%d mint=%s %s", len(ents), fmtHeights(minted), e.state())
+		t, vt, c := e.v.HardState()
+		return fmt.Sprintf("redelivered=%d mint=%s %s hs=%d/%d/%d", len(ents), fmtHeights(minted), e.state(), t, vt, c)
+	case "hs": // hs <term> <vote> <commit>: a Ready without entries and without a snapshot (a vote granted, a higher term seen)
+		t, _ := strconv.ParseUint(ws[1], 10, 64)
+		vt, _ := strconv.ParseUint(ws[2], 10, 64)
+		c, _ := strconv.ParseUint(ws[3], 10, 64)
+		if err := e.v.StoreHardState(t, vt, c); err != nil {
+			return "err " + err.Error()
+		}
+		return "ok"
 	case "state":
 		return e.state()
 	}
